@@ -96,7 +96,13 @@ func (s CallableSchema) CallStep(
 	if err != nil {
 		return outputID, nil, err
 	}
-	output := step.Outputs()[outputID]
+	// The step is an interface value: do not rely on its Call having checked the output ID.
+	output, ok := step.Outputs()[outputID]
+	if !ok || output == nil {
+		return "", nil, InvalidOutputError{
+			fmt.Errorf("undeclared output ID: %s", outputID),
+		}
+	}
 	serializedData, err := output.Schema().Serialize(unserializedOutput)
 	if err != nil {
 		return "", nil, InvalidOutputError{err}
